@@ -9,43 +9,66 @@ namespace Jap.Resolver
 
 def popUse (x : String × DVal) : Use := .pop x.1 x.2
 
-theorem splitSL_spec : ∀ {us : List Use} {ps : List (String × DVal)} {f : Use},
-    splitSL us = some (ps, f) → us = ps.map popUse ++ [f] ∧ f.isForward = true := by
+def popInUse (x : String × DVal) : Use := .popIn x.1 x.2
+
+theorem takePopIns_spec : ∀ {us : List Use} {ns : List (String × DVal)},
+    takePopIns us = some ns → us = ns.map popInUse := by
   intro us
   induction us with
-  | nil => intro ps f h; simp [splitSL] at h
+  | nil => intro ns h; simp only [takePopIns, Option.some.injEq] at h; subst h; rfl
   | cons u us ih =>
-    intro ps f h
+    intro ns h
+    cases u with
+    | popIn n d =>
+      simp only [takePopIns] at h
+      cases ht : takePopIns us with
+      | none => simp [ht] at h
+      | some ns' =>
+        simp only [ht, Option.some.injEq] at h
+        subst h
+        rw [ih ht]
+        rfl
+    | pop n d => simp [takePopIns] at h
+    | get n d => simp [takePopIns] at h
+    | superCall frm k g => simp [takePopIns] at h
+    | call t k g => simp [takePopIns] at h
+
+theorem splitSL_spec : ∀ {us : List Use} {ps : List (String × DVal)} {f : Use} {ns : List (String × DVal)},
+    splitSL us = some (ps, f, ns) → us = ps.map popUse ++ f :: ns.map popInUse ∧ f.isForward = true := by
+  intro us
+  induction us with
+  | nil => intro ps f ns h; simp [splitSL] at h
+  | cons u us ih =>
+    intro ps f ns h
     cases u with
     | pop n d =>
-      cases us with
-      | nil => simp [splitSL] at h
-      | cons u2 us2 =>
-        simp only [splitSL] at h
-        cases hs : splitSL (u2 :: us2) with
-        | none => simp [hs] at h
-        | some pf =>
-          obtain ⟨ps', f'⟩ := pf
-          simp only [hs, Option.some.injEq, Prod.mk.injEq] at h
-          obtain ⟨rfl, rfl⟩ := h
-          obtain ⟨h1, h2⟩ := ih hs
-          exact ⟨by rw [h1]; simp [popUse], h2⟩
-    | get n d =>
-      cases us <;> simp [splitSL] at h
+      simp only [splitSL] at h
+      cases hs : splitSL us with
+      | none => simp [hs] at h
+      | some pf =>
+        obtain ⟨ps', f', ns'⟩ := pf
+        simp only [hs, Option.some.injEq, Prod.mk.injEq] at h
+        obtain ⟨rfl, rfl, rfl⟩ := h
+        obtain ⟨h1, h2⟩ := ih hs
+        exact ⟨by rw [h1]; simp [popUse], h2⟩
+    | get n d => simp [splitSL] at h
+    | popIn n d => simp [splitSL] at h
     | superCall frm k g =>
-      cases us with
-      | nil =>
-        simp only [splitSL, Option.some.injEq, Prod.mk.injEq] at h
-        obtain ⟨rfl, rfl⟩ := h
-        exact ⟨rfl, rfl⟩
-      | cons u2 us2 => simp [splitSL] at h
+      simp only [splitSL] at h
+      cases ht : takePopIns us with
+      | none => simp [ht] at h
+      | some ns' =>
+        simp only [ht, Option.some.injEq, Prod.mk.injEq] at h
+        obtain ⟨rfl, rfl, rfl⟩ := h
+        exact ⟨by rw [takePopIns_spec ht]; rfl, rfl⟩
     | call t k g =>
-      cases us with
-      | nil =>
-        simp only [splitSL, Option.some.injEq, Prod.mk.injEq] at h
-        obtain ⟨rfl, rfl⟩ := h
-        exact ⟨rfl, rfl⟩
-      | cons u2 us2 => simp [splitSL] at h
+      simp only [splitSL] at h
+      cases ht : takePopIns us with
+      | none => simp [ht] at h
+      | some ns' =>
+        simp only [ht, Option.some.injEq, Prod.mk.injEq] at h
+        obtain ⟨rfl, rfl, rfl⟩ := h
+        exact ⟨by rw [takePopIns_spec ht]; rfl, rfl⟩
 
 def popList (x : String × DVal) : Bool × List Param := (true, [popParam x.1 x.2])
 
@@ -67,28 +90,47 @@ def updRemoved : Use → Bool
   | .call t _ _ => t.updatesRemoved
   | _ => true
 
-theorem collect_forward {rec : Frame → Out} {P : Prog} {wh : Where} {f : Use} (hf : f.isForward = true) (a : Acc) :
-    collect rec P wh [f] a =
+theorem collect_popIns {rec : Frame → Out} {P : Prog} {wh : Where} :
+    ∀ (ns : List (String × DVal)) (a : Acc),
+      collect rec P wh (ns.map popInUse) a = .ok { a with lists := a.lists ++ ns.map popList } := by
+  intro ns
+  induction ns with
+  | nil => intro a; simp [collect]
+  | cons x ns ih =>
+    intro a
+    simp only [List.map_cons, popInUse, collect]
+    have := ih { a with lists := a.lists ++ [(true, [popParam x.1 x.2])] }
+    simp only [popInUse] at this
+    rw [this]
+    simp [popList, List.append_assoc]
+
+/-- the accumulator after the pops nested in the call's argument list -/
+def withNested (a : Acc) (ns : List (String × DVal)) : Acc := { a with lists := a.lists ++ ns.map popList }
+
+theorem collect_forward {rec : Frame → Out} {P : Prog} {wh : Where} {f : Use} (hf : f.isForward = true)
+    (ns : List (String × DVal)) (a : Acc) :
+    collect rec P wh (f :: ns.map popInUse) a =
       match subFrame P wh f with
-      | none => .ok (addForward a f.givenPos f.given [] (updRemoved f))
+      | none => .ok (withNested (addForward a f.givenPos f.given [] (updRemoved f)) ns)
       | some fr =>
         match rec fr with
-        | .ok r => .ok (addForward a f.givenPos f.given r (updRemoved f))
+        | .ok r => .ok (withNested (addForward a f.givenPos f.given r (updRemoved f)) ns)
         | .crash => .crash
         | .nofuel => .nofuel := by
   cases f with
   | pop n d => cases hf
   | get n d => cases hf
+  | popIn n d => cases hf
   | superCall frm k g =>
     simp only [collect, subFrame, Use.givenPos, Use.given, updRemoved]
     cases superFrame P wh frm with
-    | none => rfl
-    | some fr => cases rec fr <;> rfl
+    | none => simp only [collect_popIns, withNested]
+    | some fr => cases hr : rec fr <;> simp only [hr, collect_popIns, withNested]
   | call t k g =>
     simp only [collect, subFrame, Use.givenPos, Use.given, updRemoved]
     cases targetFrame wh t with
-    | none => rfl
-    | some fr => cases rec fr <;> rfl
+    | none => simp only [collect_popIns, withNested]
+    | some fr => cases hr : rec fr <;> simp only [hr, collect_popIns, withNested]
 
 theorem runUses_pops {rec : Frame → String → Bool} {P : Prog} {wh : Where} {n : String} (rest : List Use) :
     ∀ (ps : List (String × DVal)) (pr : Bool),
@@ -105,14 +147,38 @@ theorem runUses_pops {rec : Frame → String → Bool} {P : Prog} {wh : Where} {
     simp only [List.any_cons, Bool.not_or, bne]
     cases pr <;> cases h : (x.1 == n) <;> simp
 
+theorem nestedPops_map (ns : List (String × DVal)) : nestedPops (ns.map popInUse) = ns.map (·.1) := by
+  induction ns with
+  | nil => rfl
+  | cons x ns ih => simp only [List.map_cons, popInUse, nestedPops]; rw [← ih]
+
+theorem runUses_popIns {rec : Frame → String → Bool} {P : Prog} {wh : Where} {n : String} :
+    ∀ (ns : List (String × DVal)) (pr : Bool), runUses rec P wh n (ns.map popInUse) pr = true := by
+  intro ns
+  induction ns with
+  | nil => intro pr; rfl
+  | cons x ns ih => intro pr; simp only [List.map_cons, popInUse, runUses]; exact ih _
+
 theorem runUses_forward {rec : Frame → String → Bool} {P : Prog} {wh : Where} {n : String} {f : Use}
-    (hf : f.isForward = true) (pr : Bool) :
-    runUses rec P wh n [f] pr = (if pr then forwardOK rec P wh n f f.givenPos f.given else true) := by
+    (hf : f.isForward = true) (ns : List (String × DVal)) (pr : Bool) :
+    runUses rec P wh n (f :: ns.map popInUse) pr =
+      (if pr && !(ns.any (fun x => x.1 == n)) then forwardOK rec P wh n f f.givenPos f.given else true) := by
+  have hc : decide (n ∈ ns.map (·.1)) = ns.any (fun x => x.1 == n) := by
+    induction ns with
+    | nil => simp
+    | cons x ns ih =>
+      simp only [List.map_cons, List.mem_cons, List.any_cons, ← ih, Bool.decide_or]
+      congr 1
+      by_cases h : n = x.1
+      · simp [h]
+      · have h' : ¬ x.1 = n := fun e => h e.symm
+        simp [h, h']
   cases f with
   | pop n d => cases hf
   | get n d => cases hf
-  | superCall frm k g => simp [runUses, Use.givenPos, Use.given]
-  | call t k g => simp [runUses, Use.givenPos, Use.given]
+  | popIn n d => cases hf
+  | superCall frm k g => simp [runUses, Use.givenPos, Use.given, nestedPops_map, runUses_popIns, hc]
+  | call t k g => simp [runUses, Use.givenPos, Use.given, nestedPops_map, runUses_popIns, hc]
 
 theorem execUses_noBranch {us : List GUse} (h : noBranch us = true) : execUses none us = liveUses us := by
   unfold execUses liveUses
@@ -226,16 +292,17 @@ theorem mem_names_drop {own ext : List Param} {k : Nat} {n : String}
       · exact Or.inl h
     · exact Or.inr h
 
-/-- the resolver's half on a straight-line body: own parameters, pops, and what the one forwarding
-    call keeps of its callee's parameters `R'` (`[]` when nothing is found behind the call) -/
+/-- the resolver's half on a straight-line body: own parameters, pops (statements and those nested in the
+    call's argument list), and what the one forwarding call keeps of its callee's parameters `R'`
+    (`[]` when nothing is found behind the call) -/
 theorem resolve_side {rec : Frame → Out} {P : Prog} {wh : Where}
-    {c : Callable} {ps : List (String × DVal)} {f : Use}
-    (hv : c.varkw = true) (hsl : splitSL (liveUses c.uses) = some (ps, f))
-    (hpg : ∀ x ∈ ps, x.1 ∉ f.given)
+    {c : Callable} {ps ns : List (String × DVal)} {f : Use}
+    (hv : c.varkw = true) (hsl : splitSL (liveUses c.uses) = some (ps, f, ns))
+    (hpg : ∀ x ∈ ps ++ ns, x.1 ∉ f.given)
     {R : List Param} (hR : resolveCallable rec P wh c = .ok R) :
     ∃ R', ((subFrame P wh f = none ∧ R' = []) ∨ ∃ fr, subFrame P wh f = some fr ∧ rec fr = .ok R') ∧
       ∀ n, n ∈ names R ↔
-        n ∈ names c.params ∨ (∃ x ∈ ps, x.1 = n) ∨ (n ∈ names (R'.drop f.givenPos) ∧ n ∉ f.given) := by
+        n ∈ names c.params ∨ (∃ x ∈ ps ++ ns, x.1 = n) ∨ (n ∈ names (R'.drop f.givenPos) ∧ n ∉ f.given) := by
   obtain ⟨hus, hfw⟩ := splitSL_spec hsl
   unfold resolveCallable at hR
   simp only [hv, Bool.not_true, Bool.false_eq_true, ↓reduceIte] at hR
@@ -243,7 +310,7 @@ theorem resolve_side {rec : Frame → Out} {P : Prog} {wh : Where}
   simp only [List.nil_append] at hR
   -- the callee's list
   have hcal : ∃ R', ((subFrame P wh f = none ∧ R' = []) ∨ ∃ fr, subFrame P wh f = some fr ∧ rec fr = .ok R') ∧
-      ∃ g, group (addForward ⟨List.map popList ps, []⟩ f.givenPos f.given R' (updRemoved f)).lists = .ok g ∧
+      ∃ g, group (withNested (addForward ⟨List.map popList ps, []⟩ f.givenPos f.given R' (updRemoved f)) ns).lists = .ok g ∧
         R = c.params ++ ((g.filter (fun p => decide (p.name ∉ (addForward ⟨List.map popList ps, []⟩ f.givenPos f.given R' (updRemoved f)).removed))).filter
           (fun p => decide (p.name ∉ names c.params))) := by
     cases hsr : subFrame P wh f with
@@ -251,7 +318,7 @@ theorem resolve_side {rec : Frame → Out} {P : Prog} {wh : Where}
       rw [hsr] at hR
       simp only at hR
       refine ⟨[], Or.inl ⟨rfl, rfl⟩, ?_⟩
-      cases hg : group (addForward ⟨List.map popList ps, []⟩ f.givenPos f.given [] (updRemoved f)).lists with
+      cases hg : group (withNested (addForward ⟨List.map popList ps, []⟩ f.givenPos f.given [] (updRemoved f)) ns).lists with
       | crash => simp [hg] at hR
       | nofuel => simp [hg] at hR
       | ok g =>
@@ -266,7 +333,7 @@ theorem resolve_side {rec : Frame → Out} {P : Prog} {wh : Where}
       | ok R' =>
         simp only [hrr] at hR
         refine ⟨R', Or.inr ⟨fr, rfl, hrr⟩, ?_⟩
-        cases hg : group (addForward ⟨List.map popList ps, []⟩ f.givenPos f.given R' (updRemoved f)).lists with
+        cases hg : group (withNested (addForward ⟨List.map popList ps, []⟩ f.givenPos f.given R' (updRemoved f)) ns).lists with
         | crash => simp [hg] at hR
         | nofuel => simp [hg] at hR
         | ok g =>
@@ -276,26 +343,46 @@ theorem resolve_side {rec : Frame → Out} {P : Prog} {wh : Where}
   refine ⟨R', hsub, ?_⟩
   intro n
   have hgn := group_names hg n
-  have hlists : (∃ l ∈ (addForward ⟨List.map popList ps, []⟩ f.givenPos f.given R' (updRemoved f)).lists, n ∈ names l.2) ↔
-      (∃ x ∈ ps, x.1 = n) ∨ n ∈ names (removeGiven f.givenPos f.given R') := by
-    simp only [addForward]
-    by_cases hke : (removeGiven f.givenPos f.given R').isEmpty = true
-    · simp only [hke, ↓reduceIte]
-      rw [names_popLists]
-      have : removeGiven f.givenPos f.given R' = [] := List.isEmpty_iff.1 hke
-      simp [this, names]
-    · simp only [hke, Bool.false_eq_true, ↓reduceIte]
+  have hlists : (∃ l ∈ (withNested (addForward ⟨List.map popList ps, []⟩ f.givenPos f.given R' (updRemoved f)) ns).lists, n ∈ names l.2) ↔
+      (∃ x ∈ ps ++ ns, x.1 = n) ∨ n ∈ names (removeGiven f.givenPos f.given R') := by
+    have hsplit : (∃ x ∈ ps ++ ns, x.1 = n) ↔ (∃ x ∈ ps, x.1 = n) ∨ (∃ x ∈ ns, x.1 = n) := by
       constructor
-      · rintro ⟨l, hl, hn⟩
-        rcases List.mem_append.1 hl with hl | hl
-        · exact Or.inl (names_popLists.1 ⟨l, hl, hn⟩)
-        · simp only [List.mem_singleton] at hl
-          subst hl
-          exact Or.inr hn
-      · rintro (h | h)
-        · obtain ⟨l, hl, hn⟩ := names_popLists.2 h
-          exact ⟨l, List.mem_append_left _ hl, hn⟩
-        · exact ⟨(false, removeGiven f.givenPos f.given R'), List.mem_append_right _ (by simp), h⟩
+      · rintro ⟨x, hx, h⟩
+        rcases List.mem_append.1 hx with hx | hx
+        · exact Or.inl ⟨x, hx, h⟩
+        · exact Or.inr ⟨x, hx, h⟩
+      · rintro (⟨x, hx, h⟩ | ⟨x, hx, h⟩)
+        · exact ⟨x, List.mem_append_left _ hx, h⟩
+        · exact ⟨x, List.mem_append_right _ hx, h⟩
+    rw [hsplit]
+    simp only [withNested, addForward]
+    constructor
+    · rintro ⟨l, hl, hn⟩
+      rcases List.mem_append.1 hl with hl | hl
+      · by_cases hke : (removeGiven f.givenPos f.given R').isEmpty = true
+        · simp only [hke, ↓reduceIte] at hl
+          exact Or.inl (Or.inl (names_popLists.1 ⟨l, hl, hn⟩))
+        · simp only [hke, Bool.false_eq_true, ↓reduceIte] at hl
+          rcases List.mem_append.1 hl with hl | hl
+          · exact Or.inl (Or.inl (names_popLists.1 ⟨l, hl, hn⟩))
+          · simp only [List.mem_singleton] at hl
+            subst hl
+            exact Or.inr hn
+      · exact Or.inl (Or.inr (names_popLists.1 ⟨l, hl, hn⟩))
+    · rintro ((h | h) | h)
+      · obtain ⟨l, hl, hn⟩ := names_popLists.2 h
+        refine ⟨l, List.mem_append_left _ ?_, hn⟩
+        split
+        · exact hl
+        · exact List.mem_append_left _ hl
+      · obtain ⟨l, hl, hn⟩ := names_popLists.2 h
+        exact ⟨l, List.mem_append_right _ hl, hn⟩
+      · have hne : (removeGiven f.givenPos f.given R').isEmpty = false := by
+          cases hh : removeGiven f.givenPos f.given R' with
+          | nil => rw [hh] at h; simp [names] at h
+          | cons a b => rfl
+        refine ⟨(false, removeGiven f.givenPos f.given R'), List.mem_append_left _ ?_, h⟩
+        simp [hne]
   rw [hlists] at hgn
   have hkept : n ∈ names (removeGiven f.givenPos f.given R') ↔ n ∈ names (R'.drop f.givenPos) ∧ n ∉ f.given := by
     unfold removeGiven
@@ -321,22 +408,23 @@ theorem resolve_side {rec : Frame → Out} {P : Prog} {wh : Where}
       · exact Or.inl hown
       · exact Or.inr ⟨⟨Or.inr h, fun hh => h.2 (hrem hh).2⟩, hown⟩
 
-/-- the interpreter's half on a straight-line body -/
+/-- the interpreter's half on a straight-line body: the pops nested in the argument list are evaluated
+    before the call binds, so they count like the pop statements before it -/
 theorem accept_side {rec : Frame → String → Bool} {P : Prog} {wh : Where}
-    {c : Callable} {ps : List (String × DVal)} {f : Use} {n : String}
+    {c : Callable} {ps ns : List (String × DVal)} {f : Use} {n : String}
     (hv : c.varkw = true) (hnb : noBranch c.uses = true)
-    (hsl : splitSL (liveUses c.uses) = some (ps, f)) :
+    (hsl : splitSL (liveUses c.uses) = some (ps, f, ns)) :
     runCallable rec P wh c n =
       (if n ∈ names c.params then true
-       else if ps.any (fun x => x.1 == n) then true
+       else if (ps ++ ns).any (fun x => x.1 == n) then true
        else forwardOK rec P wh n f f.givenPos f.given) := by
   obtain ⟨hus, hfw⟩ := splitSL_spec hsl
   unfold runCallable
   rw [branchIds_noBranch hnb, execUses_noBranch hnb, hus, runUses_pops, runUses_forward hfw]
-  simp only [hv, Bool.not_true, Bool.false_eq_true, ↓reduceIte, Bool.true_and]
+  simp only [hv, Bool.not_true, Bool.false_eq_true, ↓reduceIte, Bool.true_and, List.any_append]
   split
   · rfl
-  · cases ps.any (fun x => x.1 == n) <;> simp
+  · cases ps.any (fun x => x.1 == n) <;> cases ns.any (fun x => x.1 == n) <;> simp
 
 /-- what the callee contributes on both sides of the iff -/
 def CalleeMatch (rec_r : Frame → Out) (rec_a : Frame → String → Bool) (P : Prog) (wh_r wh_a : Where)
@@ -350,10 +438,10 @@ def CalleeMatch (rec_r : Frame → Out) (rec_a : Frame → String → Bool) (P :
 
 /-- one straight-line callable: offered ⇔ accepted, given the same for the callee of its forwarding call -/
 theorem callable_exact {rec_r : Frame → Out} {rec_a : Frame → String → Bool} {P : Prog} {wh_r wh_a : Where}
-    {c : Callable} {ps : List (String × DVal)} {f : Use} {n : String}
+    {c : Callable} {ps ns : List (String × DVal)} {f : Use} {n : String}
     (hv : c.varkw = true) (hnb : noBranch c.uses = true)
-    (hsl : splitSL (liveUses c.uses) = some (ps, f))
-    (hpg : ∀ x ∈ ps, x.1 ∉ f.given)
+    (hsl : splitSL (liveUses c.uses) = some (ps, f, ns))
+    (hpg : ∀ x ∈ ps ++ ns, x.1 ∉ f.given)
     (hm : CalleeMatch rec_r rec_a P wh_r wh_a f n)
     {R : List Param} (hR : resolveCallable rec_r P wh_r c = .ok R) :
     n ∈ names R ↔ runCallable rec_a P wh_a c n = true := by
@@ -361,9 +449,10 @@ theorem callable_exact {rec_r : Frame → Out} {rec_a : Frame → String → Boo
   rw [accept_side hv hnb hsl, hnames n]
   by_cases hown : n ∈ names c.params
   · simp [hown]
-  · by_cases hp : ps.any (fun x => x.1 == n) = true
-    · simp [hown, hp, any_fst_eq.1 hp]
-    · have hp' : ¬ ∃ x ∈ ps, x.1 = n := fun h => hp (any_fst_eq.2 h)
+  · by_cases hp : (ps ++ ns).any (fun x => x.1 == n) = true
+    · simp only [hown, hp, ↓reduceIte, false_or, iff_true]
+      exact Or.inl (any_fst_eq.1 hp)
+    · have hp' : ¬ ∃ x ∈ ps ++ ns, x.1 = n := fun h => hp (any_fst_eq.2 h)
       simp only [hown, hp, hp', false_or, Bool.false_eq_true, ↓reduceIte]
       have hempty : R' = [] → callee P wh_a f = none →
           (n ∈ names (List.drop f.givenPos R') ∧ n ∉ f.given ↔ forwardOK rec_a P wh_a n f f.givenPos f.given = true) := by
